@@ -75,6 +75,7 @@ func main() {
 	trace := flag.Bool("trace", false, "trace every interpreted instruction")
 	eager := flag.String("eager", "", "||-separated runtime-panic sites whose unwinding is executed eagerly")
 	feasSched := flag.Bool("feas-sched", false, "solver feasibility checks at loop back edges in sched mode too")
+	unwindFn := flag.String("unwind-fn", "", "per-function unwinding bounds: Name=n,Name=n")
 	eagerAll := flag.Bool("eager-all", false, "execute every potential runtime panic eagerly")
 	flag.Parse()
 
@@ -110,6 +111,15 @@ func main() {
 	e.unwind = *unwind
 	e.noPOR = *noPOR
 	e.trace = *trace
+	e.unwindFn = map[string]int{}
+	for _, kv := range strings.Split(*unwindFn, ",") {
+		p := strings.SplitN(kv, "=", 2)
+		if len(p) == 2 {
+			var n int
+			fmt.Sscanf(p[1], "%d", &n)
+			e.unwindFn[p[0]] = n
+		}
+	}
 	if *verbose {
 		e.profile = map[string]int{}
 	}
